@@ -64,6 +64,7 @@ C14_EPOLL = [
     H("ioep", "ep_reuse", 3, 4, args=[m], **{"cache-bits": 24}) for m in (0, 1)] + [
     H("ioep", "ep_fault", 2, 3, args=list(a)) for a in ((0, 0, 1, 5), (0, 0, 0, 5), (0, 1, 1, 5), (0, 1, 0, 5), (1, 0, 1, 5), (1, 0, 0, 5), (1, 1, 1, 5), (1, 1, 0, 5), (0, 0, 1, 9), (1, 0, 1, 32))]
 C14_URING = [
+    H("iour", "uring_conf", args=[3]), H("iour", "uring_conf", args=[4], thorough_only=True, weight=3),
     H("iour", "ur_sched", 3, 4, args=[2]), H("iour", "ur_sched", 3, 4, args=[1]),
     H("iour", "ur_stop", 3, 4),
 ] + [H("iour", "ur_timer", 3, 4, args=[m]) for m in (0, 1, 2, 3, 4)] + [
